@@ -29,6 +29,7 @@ void runLoadDump(const Opts& o, long idx, CaseLog& log) {
         snprintf(b, sizeof b, "%s/resave_%ld.c3d", o.out.c_str(), idx);
         Outcome so; log.pre("write"); VF_TRY(so, c->write(b)); log.ev("save", "", so);
         if (so.threw) log.line("RESAVE %ld threw %s", idx, so.cls.c_str());
+        { Snap after = take(*c); if (after != s) { std::vector<std::string> dd = diff(s, after, 4); std::string all; for (size_t i = 0; i < dd.size(); ++i) all += dd[i] + "; "; log.viol("C14", "save_changed_object", "a loaded object differs after write(): " + all); } }
     }
     log.pre("destroy"); c.reset();
 }
